@@ -264,7 +264,7 @@ func (x *hW) adoptNew(set uint8, tgt Entity, v *hVals, withVals bool) int {
 			}
 		}
 		if !known {
-			vAssume(nf < hMaxH)
+			vBound(nf < hMaxH, "handles<=10")
 			fresh[nf] = e
 			nf++
 		}
